@@ -102,7 +102,7 @@ Variable fx : fixes.
 Variable env : nenv.
 
 (* Expr.canonical_path: names and dotted chains resolve through the module's imports, subscripts and calls answer for their
-   left part, everything else is its own text; an ExprKeyword answers `<function>(<name>)` (kwf: the call's function) *)
+   left part (a called constant: its text), everything else is its own text; an ExprKeyword answers `<function>(<name>)` *)
 Fixpoint canon_full (g : gexpr) : string :=
   match g with
   | GStr s => s
@@ -113,7 +113,6 @@ Fixpoint canon_full (g : gexpr) : string :=
   end.
 Definition item_canon (parent : gexpr) (g : gexpr) : string :=
   match g, parent with
-  | GKeyword n _, GCall (GStr _) _ => "n/a"      (* AttributeError: 'str' object has no attribute 'canonical_path' (finding F15) *)
   | GKeyword n _, GCall f _ => canon_full f ++ "(" ++ n ++ ")"
   | _, _ => canon_full g
   end.
